@@ -11,25 +11,61 @@ namespace TxVerif
 
 /-- `growFile` / step 1+2 of `shrinkFile`: only the limit (and the header's txid) change -/
 def FileSt.setMax (f : FileSt) (newMax : Nat) : FileSt :=
-  { f with alloc := { f.alloc with maxPages := newMax }, txid := f.txid + 1 }
+  { f with alloc := ({ f.alloc with maxPages := newMax } : Alloc).absorbOverflow, txid := f.txid + 1 }
 
-/-- resize_preserves: root, every page's content, the mapping, both free lists and the end
-    markers are untouched by the max-size update -/
+/-- resize_preserves: root, every page's content, the mapping, both free lists, the meta area and
+    its end marker are untouched by the max-size update; the data end marker can only be raised
+    (over the overflow area, when the data area may grow again) -/
 theorem resize_preserves (f : FileSt) (newMax : Nat) :
     (f.setMax newMax).root = f.root ∧ (∀ id, (f.setMax newMax).readPage id = f.readPage id) ∧
-    (f.setMax newMax).walMap = f.walMap ∧ (f.setMax newMax).alloc.data = f.alloc.data ∧
+    (f.setMax newMax).walMap = f.walMap ∧ (f.setMax newMax).alloc.data.free = f.alloc.data.free ∧
+    f.alloc.data.endMarker ≤ (f.setMax newMax).alloc.data.endMarker ∧
     (f.setMax newMax).alloc.mta = f.alloc.mta ∧ (f.setMax newMax).alloc.metaTotal = f.alloc.metaTotal := by
-  simp [FileSt.setMax, FileSt.readPage, FileSt.physOf, FileSt.diskAt]
+  unfold FileSt.setMax Alloc.absorbOverflow
+  by_cases hc : f.alloc.data.endMarker < f.alloc.mta.endMarker ∧ (newMax = 0 ∨ f.alloc.data.endMarker < newMax)
+  · rw [if_pos hc]
+    refine ⟨rfl, fun _ => rfl, rfl, rfl, ?_, rfl, rfl⟩
+    show f.alloc.data.endMarker ≤ f.alloc.mta.endMarker
+    omega
+  · rw [if_neg hc]
+    exact ⟨rfl, fun _ => rfl, rfl, rfl, Nat.le_refl _, rfl, rfl⟩
+
+/-- resize_no_collision: after the update, whenever pages can be taken from the end of the file
+    they lie behind every meta page (on the pinned tree raising or removing the limit of a file with
+    an overflow area in use let the data area grow INTO the overflow area: pages of the free list /
+    the mapping were handed out as data pages) -/
+theorem resize_no_collision (f : FileSt) (newMax : Nat)
+    (hg : newMax = 0 ∨ (f.setMax newMax).alloc.data.endMarker < newMax) :
+    f.alloc.mta.endMarker ≤ (f.setMax newMax).alloc.data.endMarker := by
+  unfold FileSt.setMax Alloc.absorbOverflow at *
+  by_cases hc : f.alloc.data.endMarker < f.alloc.mta.endMarker ∧ (newMax = 0 ∨ f.alloc.data.endMarker < newMax)
+  · rw [if_pos hc]
+    exact Nat.le_refl _
+  · rw [if_neg hc] at hg ⊢
+    show f.alloc.mta.endMarker ≤ f.alloc.data.endMarker
+    have hg' : newMax = 0 ∨ f.alloc.data.endMarker < newMax := hg
+    omega
 
 /-- limit_persisted: the new limit is what the allocator (and the header) carry afterwards -/
-theorem limit_persisted (f : FileSt) (newMax : Nat) : (f.setMax newMax).alloc.maxPages = newMax := rfl
+theorem limit_persisted (f : FileSt) (newMax : Nat) : (f.setMax newMax).alloc.maxPages = newMax := by
+  unfold FileSt.setMax Alloc.absorbOverflow; split <;> rfl
 
-/-- grow_exact: growing a bounded file whose data area lies within the old limit makes exactly
-    the additional pages allocatable -/
+/-- grow_exact: growing a bounded file whose data area lies within the old limit (and that has no
+    overflow area) makes exactly the additional pages allocatable -/
 theorem grow_exact (f : FileSt) (newMax : Nat) (hold : 0 < f.alloc.maxPages)
-    (hend : f.alloc.data.endMarker ≤ f.alloc.maxPages) (hgrow : f.alloc.maxPages ≤ newMax) :
+    (hend : f.alloc.data.endMarker ≤ f.alloc.maxPages) (hgrow : f.alloc.maxPages ≤ newMax)
+    (hnov : f.alloc.mta.endMarker ≤ f.alloc.data.endMarker) :
     (f.setMax newMax).alloc.dataAvail = f.alloc.dataAvail + (newMax - f.alloc.maxPages) := by
-  simp only [FileSt.setMax, Alloc.dataAvail]
+  have hid : (({ f.alloc with maxPages := newMax } : Alloc)).absorbOverflow = { f.alloc with maxPages := newMax } := by
+    unfold Alloc.absorbOverflow
+    rw [if_neg]
+    intro hc
+    have := hc.1
+    simp only at this
+    omega
+  unfold FileSt.setMax
+  rw [hid]
+  simp only [Alloc.dataAvail]
   have h1 : ¬ newMax = 0 := by omega
   have h2 : ¬ f.alloc.maxPages = 0 := by omega
   simp only [h1, h2, if_false]
